@@ -264,6 +264,7 @@ func (ex *Exec) addrOfExpr(st *State, xx ast.Expr, pty types.Type, k func(*State
 	case *ast.CompositeLit:
 		ex.compositeLit(st, in, func(st *State, v Val) {
 			r := ex.newRef(st, "new")
+			ex.allocSub(st, r, v.Go)
 			ex.storeStruct(st, r, v)
 			if n, _, _ := structOf(v.Go); n != nil && n.Obj().Pkg() != nil {
 				st.assume(sEq(sApp(ex.dynTypeFn(), r), ex.typeTag(n.Obj().Pkg().Name()+"."+n.Obj().Name())))
@@ -284,6 +285,7 @@ func (ex *Exec) addrOfExpr(st *State, xx ast.Expr, pty types.Type, k func(*State
 			panic(unsupported("address of non-struct local " + in.Name))
 		}
 		r := ex.newRef(st, "box_"+in.Name)
+		ex.allocSub(st, r, v.Go)
 		ex.storeStruct(st, r, v)
 		owner.vars[obj] = Val{T: r, S: sRef, Go: v.Go}
 		owner.boxed[obj] = true
@@ -804,6 +806,7 @@ func (ex *Exec) builtin(st *State, name string, x *ast.CallExpr, k func(*State, 
 		ty := ex.typeOf(fr, x)
 		pt := types.Unalias(ty).Underlying().(*types.Pointer)
 		r := ex.newRef(st, "new")
+		ex.allocSub(st, r, pt.Elem())
 		ex.storeStruct(st, r, ex.zeroVal(pt.Elem()))
 		one(st, Val{T: r, S: sRef, Go: ty})
 	case "append":
